@@ -22,15 +22,19 @@ open Ecal.Conc Ecal.Gen.C13
       sequential and concurrent results are computed at different counter values).
     Nothing else: a new `sync/atomic` cell, a `sync.Pool`, a `sync.Map`, a channel are free of data
     races but still carry information from one parse to another, and the property is purity. -/
-def allowedWrites : List Write := [
-  ⟨"interpreter.instanceCounter", "interpreter.newBaseRuntime", "atomic"⟩,
+def allowedWrites : List (String × String × String) := [
+  ("interpreter.instanceCounter", "interpreter.newBaseRuntime", "atomic"),
   -- not writes: method calls on package-level values of another package's type are listed so that
   -- nothing of that shape goes unseen. `regexp.Regexp` is documented as safe for concurrent use by
   -- multiple goroutines and `MatchString` does not modify it.
-  ⟨"parser.NamePattern", "parser.lexToken", "extcall:regexp.?.MatchString"⟩,
-  ⟨"parser.numberPattern", "parser.lexToken", "extcall:regexp.?.MatchString"⟩]
+  ("parser.NamePattern", "parser.lexToken", "extcall:regexp.?.MatchString"),
+  ("parser.numberPattern", "parser.lexToken", "extcall:regexp.?.MatchString")]
 
-def allowedWrite (w : Write) : Bool := allowedWrites.contains w
+/-- (variable, function, kind) must be listed; the function may be the enclosing one or — when the
+    write sits in an unexported helper with exactly one caller — that caller (extracting a helper out
+    of the listed function changes nothing). -/
+def allowedWrite (w : Write) : Bool :=
+  allowedWrites.contains (w.name, w.fn, w.kind) || allowedWrites.contains (w.name, w.caller, w.kind)
 
 /-- cells with an allowed (atomic / lock-protected) update -/
 def allowedCells (ws : List Write) : List String := (ws.filter allowedWrite).map (·.name)
@@ -48,17 +52,18 @@ theorem writesOnParsePath_allowed : ∀ w ∈ writesOnParsePath, allowedWrite w 
     property is purity. None is allowed today. -/
 theorem allWrites_allowed : ∀ w ∈ allWrites, allowedWrite w = true := by decide
 
-example : ¬ (∀ w ∈ [Write.mk "parser.laBufferPool" "parser.LABuffer.release" "call:Put"], allowedWrite w = true) := by decide
+example : ¬ (∀ w ∈ [Write.mk "parser.laBufferPool" "parser.LABuffer.release" "call:Put" "parser.LABuffer.release"], allowedWrite w = true) := by decide
 
 /-- an atomic cell is not allowed because it is atomic (seeded changes C13-1, C13c-1) -/
-example : allowedWrite ⟨"parser.pendingPre", "parser.parser.next", "atomic"⟩ = false ∧
-    allowedWrite ⟨"parser.guardExpressionDepth", "parser.ndGuard", "atomic"⟩ = false := by decide
+example : allowedWrite ⟨"parser.pendingPre", "parser.parser.next", "atomic", "parser.parser.next"⟩ = false ∧
+    allowedWrite ⟨"parser.guardExpressionDepth", "parser.ndGuard", "atomic", "parser.ndGuard"⟩ = false ∧
+    allowedWrite ⟨"interpreter.instanceCounter", "interpreter.nextInstanceID", "atomic", "interpreter.newBaseRuntime"⟩ = true := by decide
 
 /-- **Generated side obligation** (three-valued): the value obtained from the instance counter is not
     seen to flow anywhere but into `instanceID` (`unknown:…` entries are not judged; they are noted
     by the check). -/
 theorem counter_flows_into_instanceID :
-    ∀ f ∈ counterFlows, f.2.1 = "instanceID" ∨ f.2.1 = "unknown" := by decide
+    counterFlows ≠ [] ∧ ∀ f ∈ counterFlows, f.2.1 = "instanceID" ∨ f.2.1 = "unknown" := by decide
 
 /-- Package-level writes in the other packages a runtime provider reaches (stdlib, engine, engine/pool,
     engine/pubsub, config) that are allowed, justified one by one:
@@ -70,25 +75,31 @@ theorem counter_flows_into_instanceID :
     * `stdlib.internalStdlibDocMap` / `internalStdlibFuncMap` in `AddStdlibPkg` / `AddStdlibFunc`: the
       host-side registration API, unsynchronised by design — a host registers its functions before it
       starts parsing and evaluating (assumption, listed in the evidence); not on the parse path. -/
-def allowedOtherPackageWrites : List Write := [
-  ⟨"engine.midcounter", "engine.UnitTestResetIDs", "assign"⟩,
-  ⟨"engine.midcounter", "engine.newMonID", "incdec+lock"⟩,
-  ⟨"engine.pidcounter", "engine.UnitTestResetIDs", "assign"⟩,
-  ⟨"engine.pidcounter", "engine.newProcID", "incdec+lock"⟩,
-  ⟨"engine.ruleindexidcounter", "engine.UnitTestResetIDs", "assign"⟩,
-  ⟨"engine.ruleindexidcounter", "engine.newRuleIndexID", "incdec+lock"⟩,
-  ⟨"stdlib.internalStdlibDocMap", "stdlib.AddStdlibPkg", "assign"⟩,
-  ⟨"stdlib.internalStdlibFuncMap", "stdlib.AddStdlibFunc", "assign"⟩]
+def allowedOtherPackageWrites : List (String × String × String) := [
+  ("engine.midcounter", "engine.UnitTestResetIDs", "assign"),
+  ("engine.midcounter", "engine.newMonID", "incdec+lock"),
+  ("engine.pidcounter", "engine.UnitTestResetIDs", "assign"),
+  ("engine.pidcounter", "engine.newProcID", "incdec+lock"),
+  ("engine.ruleindexidcounter", "engine.UnitTestResetIDs", "assign"),
+  ("engine.ruleindexidcounter", "engine.newRuleIndexID", "incdec+lock"),
+  ("stdlib.internalStdlibDocMap", "stdlib.AddStdlibPkg", "assign"),
+  ("stdlib.internalStdlibFuncMap", "stdlib.AddStdlibFunc", "assign")]
 
 /-- **Generated side obligation**: every package-level write in stdlib, engine, engine/pool,
     engine/pubsub, config is one of the justified entries. -/
-theorem otherPackageWrites_allowed : ∀ w ∈ otherPackageWrites, w ∈ allowedOtherPackageWrites := by decide
+theorem otherPackageWrites_allowed : ∀ w ∈ otherPackageWrites,
+    (w.name, w.fn, w.kind) ∈ allowedOtherPackageWrites ∨ (w.name, w.caller, w.kind) ∈ allowedOtherPackageWrites := by decide
 
 /-- **Generated side obligation**: `Validate` is only ever called by a `Validate` method on its own
     base component / children, or on a tree the calling function has just obtained from the parser —
     never on a component that other goroutines may already evaluate. (This is what makes the
     `Validate`-phase writes of `allowedObjectWrites` part of the initial state of evaluating threads.) -/
 theorem validate_call_sites : ∀ c ∈ validateCallSites, c.2 = "recursion" ∨ c.2 = "fresh" := by decide
+
+/-- **Generated side obligation**: no function on the parse / runtime-construction path looks at a
+    clock (`time.After`, `time.Now`, `time.Sleep`, a timer): a parse that gives up waiting for its
+    tokens after some milliseconds writes nothing and is still not a function of its input. -/
+theorem no_clock_on_parse_path : timeOnParsePath = [] := by decide
 
 /-- The extractor looked at the right code: the entry points exist and the
     functions that carried the defect are on the path it follows. -/
@@ -208,17 +219,29 @@ def allowedObjectWrites : List ObjWrite := [
 /-- **Generated side obligation**: every write to a field of a shared object found in the source
     is a `sync/atomic` update or one of the justified entries. -/
 theorem sharedObjectWrites_allowed :
-    ∀ w ∈ sharedObjectWrites, w.kind = "atomic" ∨ w ∈ allowedObjectWrites := by decide
+    ∀ w ∈ sharedObjectWrites, w ∈ allowedObjectWrites ∨ w.phase = "once" := by decide
 
 /-- cells (object.field / package variable) that evaluating and parsing threads may update —
     atomically or under a lock — while they run -/
+def runPhaseObjectCells : List (String × String) :=
+  [("ECALRuntimeProvider", "Mutexes"), ("ECALRuntimeProvider", "MutexeOwners"), ("ECALRuntimeProvider", "MutexLog")]
+
 def runPhaseCells : List String :=
-  ["interpreter.instanceCounter", "ECALRuntimeProvider.Mutexes", "ECALRuntimeProvider.MutexeOwners"]
+  "interpreter.instanceCounter" :: runPhaseObjectCells.map (fun p => p.1 ++ "." ++ p.2)
+
+/-- **Generated side obligation** (the link between the extracted facts and hypothesis `hW` of
+    `shared_ast_reentrant`): every run-phase write to a field of a shared object found in the source
+    is a write to one of `runPhaseObjectCells`; every package-level write is the instance counter
+    (or a listed read-only ext call). `once`-phase writes (inside `sync.Once.Do`) are not steps of
+    the evaluating threads in this sense: they happen once with a happens-before edge. -/
+theorem run_phase_writes_within_cells :
+    (∀ w ∈ sharedObjectWrites, w.phase = "run" → (w.obj, w.field) ∈ runPhaseObjectCells) ∧
+    (∀ w ∈ allWrites, w.kind = "atomic" → w.name = "interpreter.instanceCounter") := by decide
 
 /-- **shared_ast_reentrant.** Threads that evaluate one shared, validated AST (or parse with one
     shared provider) and write, among package-level variables and fields of shared objects,
-    only the `runPhaseCells` (`hW` — what the two generated obligations establish for the
-    source), with results that do not look at those cells (`hC`): every thread's result in
+    only the `runPhaseCells` (`hW` — tied to the source by `run_phase_writes_within_cells`,
+    syntactically, not proved of the code), with results that do not look at those cells (`hC`): every thread's result in
     every interleaving equals its result alone; all other shared state is unchanged. -/
 theorem shared_ast_reentrant {V L R : Type} (sys : Sys String V L) (result : L → R)
     (hW : WritesWithin sys (· ∈ runPhaseCells))
@@ -288,7 +311,11 @@ theorem nonatomic_ids_collide :
     incremented in the constructor, a lazily filled cache map in an `Eval` method -/
 example : ¬ (∀ w ∈ [ObjWrite.mk "ECALRuntimeProvider" "instanceCounter" "interpreter.newBaseRuntime" "incdec" "run",
                      ObjWrite.mk "stringValueRuntime" "interpolations" "interpreter.stringValueRuntime.interpolationAST" "assign" "run"],
-              w.kind = "atomic" ∨ w ∈ allowedObjectWrites) := by decide
+              w ∈ allowedObjectWrites ∨ w.phase = "once") := by decide
+
+/-- an atomic update of a field of a shared object is not allowed because it is atomic (seeded C13d-1) -/
+example : ¬ (∀ w ∈ [ObjWrite.mk "ECALRuntimeProvider" "interpolations" "interpreter.stringValueRuntime.Eval" "atomic" "run"],
+              w ∈ allowedObjectWrites ∨ w.phase = "once") := by decide
 
 /-! ### Negative witnesses: the code before the repair (`parserSys false`) -/
 
@@ -323,8 +350,8 @@ theorem unrepaired_writes_table : ¬ WritesWithin (parserSys false) (fun _ => Fa
   revert this
   decide
 
-example : ¬ (∀ w ∈ [Write.mk "parser.astNodeMap" "parser.ndGuard" "assign",
-                     Write.mk "interpreter.instanceCounter" "interpreter.newBaseRuntime" "incdec"],
+example : ¬ (∀ w ∈ [Write.mk "parser.astNodeMap" "parser.ndGuard" "assign" "parser.ndGuard",
+                     Write.mk "interpreter.instanceCounter" "interpreter.newBaseRuntime" "incdec" "interpreter.newBaseRuntime"],
               allowedWrite w = true) := by decide
 
 end Ecal.Props.C13
